@@ -25,7 +25,20 @@ def run_fuzzy(ck, sc, tier):
             return None, [("crash", {"what": "sanitizer abort in the fuzzy routines (e.g. scratch buffer overrun)", "stderr": (r.stderr or "")[-1500:]})], []
         raise Broken("fuzzy harness failed rc=%s: %s" % (r.returncode, (r.stderr or "")[-1500:]))
     summ = json.loads(m.group(1))
-    files = sorted(glob.glob(sc.path("fz-*.ndjson")))
+    # the controllers again in the float and long double builds (scratch buffer layout, value block offsets depend on the width)
+    for real in (4, 16):
+        exe_w = vlib.cc_build(sc.path("fuzzy_h%d" % real), [os.path.join(vlib.HARNESS, "fuzzy_h.c")] +
+                              vlib.repo_src("mf.c", "fuzzy.c", "pid.c", "pid_fuzzy.c", "pid_neuro.c", "math.c", "a.c"), sc, real=real,
+                              extra=["-fno-sanitize=alignment"])   # the value block follows 2*n unsigned ints: not 16-byte aligned for odd n, not claimed
+        rw = vlib.run_harness([exe_w, out, sc.path("fz%d" % real), "2", str(ck.seed), "1"], timeout=900)
+        mw = re.search(r"^SUMMARY (\{.*\})$", rw.stdout or "", re.M)
+        if rw.returncode != 0 or not mw:
+            if rw.returncode in (97, 98, 99, -6, -11) or "Sanitizer" in (rw.stderr or ""):
+                return None, [("crash", {"what": "sanitizer abort in the fuzzy routines, real width %d (e.g. scratch buffer overrun)" % real, "stderr": (rw.stderr or "")[-1500:]})], []
+            raise Broken("fuzzy harness (real width %d) failed rc=%s: %s" % (real, rw.returncode, (rw.stderr or "")[-1500:]))
+        sw = json.loads(mw.group(1))
+        summ["controllers"] += sw["controllers"]; summ["events"] += sw["events"]
+    files = sorted(glob.glob(sc.path("fz*-*.ndjson")))
     nev, bad = vlib.validate_collect(os.path.join(SPECDIR, "FuzzyTrace.tla"), os.path.join(SPECDIR, "FuzzyTrace.cfg"), files, sc)
     return summ, bad, files
 
